@@ -338,7 +338,9 @@ func newHist(max uint64) {
 	chainRef.UTXOCache.CleanCache()
 	ckp := checkpoint.NewManager(config.GetDefaultParams())
 	p := mempool.NewTxPool(params, ckp)
-	p.VerifSetMaxSize(max)
+	if max != 20000000 { // the default history keeps whatever capacity NewTxPool configures (pact.MaxTxPoolSize)
+		p.VerifSetMaxSize(max)
+	}
 	H = &hist{pool: p, descs: map[int]*desc{}, real: map[int]interfaces.Transaction{}, poolObj: map[int]*otx{},
 		idOfHash: map[common.Uint256]int{}, dict: map[string]string{}, sigs: map[int][]byte{}}
 	for _, c := range []string{"Change the fee of custom ID", "Reserve custom ID", "CRC Appropriation", "Secretary General",
@@ -627,7 +629,66 @@ func joinC(ss []string) string {
 	return strings.Join(ss, ",")
 }
 
+// publicQueries compares the pool's public read API with its internal state.
+func publicQueries(s mempool.VerifSnapshot) string {
+	p := H.pool
+	if p.GetTransactionCount() != len(s.Txs) {
+		return fmt.Sprintf("GetTransactionCount=%d,held=%d", p.GetTransactionCount(), len(s.Txs))
+	}
+	held := map[common.Uint256]bool{}
+	for _, h := range s.Txs {
+		held[h] = true
+		if !p.HaveTransaction(h) || p.GetTransaction(h) == nil {
+			return "HaveTransaction/GetTransaction_misses_a_held_tx"
+		}
+	}
+	all := p.GetTxsInPool()
+	if len(all) != len(s.Txs) {
+		return "GetTxsInPool_length"
+	}
+	for _, tx := range all {
+		if !held[tx.Hash()] {
+			return "GetTxsInPool_lists_a_tx_that_is_not_held"
+		}
+	}
+	used := p.GetUsedUTXOs()
+	nIn := 0
+	for _, sl := range s.Slots {
+		if sl.Name == "TxInputsReferKeys" {
+			nIn = len(sl.Keys)
+			for _, k := range sl.Keys {
+				if _, ok := used[k.Key[2:]]; !ok {
+					return "GetUsedUTXOs_misses_an_indexed_input"
+				}
+			}
+		}
+		if sl.Name == "SidechainTxHashes" {
+			for _, k := range sl.Keys {
+				b, _ := common.HexStringToBytes(k.Key[2:])
+				h, _ := common.Uint256FromBytes(b)
+				if h == nil || !p.IsDuplicateSidechainTx(*h) {
+					return "IsDuplicateSidechainTx_misses_an_indexed_hash"
+				}
+			}
+		}
+		if sl.Name == "SidechainReturnDepositTxHashes" {
+			for _, k := range sl.Keys {
+				b, _ := common.HexStringToBytes(k.Key[2:])
+				h, _ := common.Uint256FromBytes(b)
+				if h == nil || !p.IsDuplicateSidechainReturnDepositTx(*h) {
+					return "IsDuplicateSidechainReturnDepositTx_misses_an_indexed_hash"
+				}
+			}
+		}
+	}
+	if len(used) != nIn {
+		return fmt.Sprintf("GetUsedUTXOs=%d,indexed_inputs=%d", len(used), nIn)
+	}
+	return ""
+}
+
 type snapView struct {
+	queryBad string
 	txs   []int
 	fees  []mempool.VerifFeeItem
 	total uint64
@@ -670,6 +731,10 @@ func snapshot() string {
 		}
 	}
 	lastSnap = v
+	v.queryBad = publicQueries(s)
+	if v.queryBad != "" {
+		return "public-query-disagrees:" + v.queryBad
+	}
 	return fmt.Sprintf("txs=%s fees=%s total=%d max=%d used=%d slots=%s", joinC(idStrs), fmtFeeItems(s.FeeList, idOf), s.TotalSize, s.MaxSize,
 		int64(s.ProposalsUsedAmount), joinC(slotStrs))
 }
@@ -984,6 +1049,9 @@ func oracle(t []string, out string) *hx.Violation {
 	}
 	v := lastSnap
 	bad := func(kind, detail string) *hx.Violation { return &hx.Violation{Kind: kind, Detail: detail} }
+	if v.queryBad != "" {
+		return bad("pool-public-query", "a public read API of the pool disagrees with what it holds: "+v.queryBad)
+	}
 	inPool := map[int]bool{}
 	for _, id := range v.txs {
 		inPool[id] = true
